@@ -384,3 +384,8 @@ package pickle
 
 //@ func pickle.NewEncoder
 //@   ensures result != nil && result.memo != nil && result.inProgress != nil
+
+// The memo tables of an encoder are created once and never replaced (their contents only change
+// through memoize and the in-progress markers of encodeComplex).
+//@ struct pickle.Encoder
+//@   stable memo, inProgress writers pickle.NewEncoder
